@@ -1,6 +1,7 @@
 """C18 Failover needs a quorum of fresh, distinct reports.
 Proof: coq/Props/C18.v over Model/Broker.v (add_failure, get_failures, add_proxy, step, run); proofs in
-coq/Proofs/BrokerEpochFail.v and BrokerEpochReach.v.  Correspondence and monitors: checks/broker_common.py + harness/broker."""
+coq/Proofs/BrokerEpochFail.v and BrokerEpochReach.v; service layer coq/Proofs/BrokerSvc.v.
+Correspondence and monitors: checks/broker_common.py + harness/broker (store level) + harness/brokersvc (real HTTP service, meta file, restart)."""
 import broker_common as bc
 
 MANIFEST = {
@@ -16,13 +17,27 @@ MANIFEST = {
           'The model is tied to the code by running seeded random operation histories (registrations, removals, reports with ages, queries with quorum 1..4 '
           'and several ttl values, failovers, restores ...) on the real MetaStore and on the extracted model and comparing the canonical store text and all '
           'views after every operation; the C18 monitors (listed => registered and >= quorum fresh reports; nothing expired or empty kept; re-registration '
-          'clears; report count grows by exactly one per new reporter) are evaluated on the real store after every operation.',
+          'clears; report count grows by exactly one per new reporter) are evaluated on the real store after every operation. '
+          'SERVICE LAYER (src/broker/service.rs): C18_service_file_current (contract model svc_step over (memory, meta file): after every call, every result, file = '
+          'memory = the store operation\'s result) and C18_service_reregister_stays_clear (after OAddProxy a through the service - AlreadyExisted included - and ANY number '
+          'of restarts from the meta file, a has no reports, no failed mark, is registered and is not listed by get_failures for any clock / ttl / quorum; derived from '
+          'C18_reregister_clears + C18_quorum; restarts removable by C13_service_restarts_are_identity). Tied to the code by harness/brokersvc: the same history syntax '
+          'driven as real HTTP requests against the real run_server + MemBrokerService (auto_update_meta_file) + JsonFileStorage on a temp file, op svcrestart = stop '
+          'and start again with recover_from_meta_file; after EVERY request: reply + store text + all views = extracted model (restarts removed), meta file = memory '
+          '(also after refused calls), store after restart = store before, every GET view served = the store\'s view, and a re-registered proxy stays clear of reports / '
+          'failed mark across restarts until a new report or failover names it.',
   'note': 'Trusted: Coq kernel (all theorems closed under the global context), extraction + OCaml driver, harness/broker (dom.rs, mon.rs), hook H1. '
           'ORestore installs an arbitrary snapshot: the invariant theorems require the snapshot to be well-formed (op_wf) or, in the inductive form, reachable. '
           'C18_reregister_clears excludes the MissingIndex rejection of ordered mode, which returns before anything is touched (the real code does the same). '
           'Partial: the clock is an input of the model (Utc::now() in the code; the harness ages reports by rewriting stored timestamps in 1000 s steps); '
           'chrono conversion of out-of-range stored timestamps (NaiveDateTime::from_timestamp panic) is outside the model; the coordinator side that '
-          'produces the reports (detector.rs) is not part of this property.',
+          'produces the reports (detector.rs) is not part of this property. '
+          'Service layer: trusted harness/brokersvc (svc.rs; includes harness/broker dom.rs / mon.rs unchanged), the five lines of src/bin/mem_broker.rs main() that load the '
+          'meta file are repeated in the harness; over HTTP only age-0 reports exist (the broker stamps its own clock) and ttl / quorum / migration limit / cluster config are '
+          'per-process (MemBrokerConfig), so expiry stays with the store-level histories. Known class on the unchanged tree, excluded from the gating histories and replayed as '
+          'an observation on every run (evidence service_layer.observed_not_gating): a REFUSED migrate / scale-down call has already taken a global epoch and its handler skips '
+          'trigger_update(), so the file is one global epoch behind until the next accepted call (C13_service_stale_witness); likewise the auto-scale call refused after releasing '
+          'free chunks, PUT /epoch/recovery and GET /failures pruning are not persisted. auto-scale (needs live proxies), PUT /metadata and recovery are outside the gating set.',
   'technique': 'Coq proof over a hand-written model + differential correspondence check against the real code',
 }
 
